@@ -170,6 +170,22 @@ impl Layout {
     }
 }
 
+/// Restricts axis `ax` of `$v` to `start..end` with `step`.  A slice that keeps the whole axis is
+/// not performed as a slice: ndarray's slicing resets the stride of an axis of length <= 1 to 0,
+/// whereas arrays built by `insert_axis`, `t()`, `permuted_axes`, `into_shape` or in F order carry
+/// arbitrary non-zero strides on their unit axes (and still count as contiguous).  Keeping the
+/// parent's stride (negated by `invert_axis` for a full reversed axis) makes those arrays reachable.
+macro_rules! narrow {
+    ($v:expr, $ax:expr, $a:expr, $b:expr, $c:expr, $plen:expr) => {
+        if $a == 0 && $b == $plen as isize && $c == 1 {
+        } else if $a == 0 && $b == $plen as isize && $c == -1 {
+            $v.invert_axis(Axis($ax));
+        } else {
+            $v.slice_axis_inplace(Axis($ax), Slice::new($a, Some($b), $c));
+        }
+    };
+}
+
 /// Owns the parent allocation and hands out the view described by the layout.
 pub struct Parent<T> {
     pub arr: ArrayD<T>,
@@ -188,14 +204,14 @@ impl<T: Elem> Parent<T> {
     pub fn view_mut(&mut self) -> ArrayViewMutD<'_, T> {
         let mut v = self.arr.view_mut();
         for (ax, &(a, b, c)) in self.layout.slices.iter().enumerate() {
-            v.slice_axis_inplace(Axis(ax), Slice::new(a, Some(b), c));
+            narrow!(v, ax, a, b, c, self.layout.pshape[ax]);
         }
         v.permuted_axes(IxDyn(&self.layout.perm))
     }
     pub fn view(&self) -> ArrayViewD<'_, T> {
         let mut v = self.arr.view();
         for (ax, &(a, b, c)) in self.layout.slices.iter().enumerate() {
-            v.slice_axis_inplace(Axis(ax), Slice::new(a, Some(b), c));
+            narrow!(v, ax, a, b, c, self.layout.pshape[ax]);
         }
         v.permuted_axes(IxDyn(&self.layout.perm))
     }
@@ -205,7 +221,7 @@ impl<T: Elem> Parent<T> {
     pub fn owned_sliced(&self) -> ArrayD<T> {
         let mut o = self.arr.clone();
         for (ax, &(a, b, c)) in self.layout.slices.iter().enumerate() {
-            o.slice_axis_inplace(Axis(ax), Slice::new(a, Some(b), c));
+            narrow!(o, ax, a, b, c, self.layout.pshape[ax]);
         }
         o.permuted_axes(IxDyn(&self.layout.perm))
     }
@@ -220,7 +236,7 @@ impl<T: Elem> Parent<T> {
 pub fn view_of<'a, T>(arr: &'a ArrayD<T>, layout: &Layout) -> ArrayViewD<'a, T> {
     let mut v = arr.view();
     for (ax, &(a, b, c)) in layout.slices.iter().enumerate() {
-        v.slice_axis_inplace(Axis(ax), Slice::new(a, Some(b), c));
+        narrow!(v, ax, a, b, c, layout.pshape[ax]);
     }
     v.permuted_axes(IxDyn(&layout.perm))
 }
